@@ -572,6 +572,28 @@ def openReader (cfg : Cfg) (mmap : Bool) (plugin : Bytes → BitVec 32 → Bool)
     | alloc s n => alloc s n
     | fault s => fault s
 
+/-- the loop of `(*Writer).loadSnapshots`: snapshot files OLDEST first; an error moves on and keeps what was
+loaded so far, a file that loads replaces it, anything else (a panic, a fault) ends the walk.
+Result: index (from the oldest) and segments of the last file that loaded, if any. -/
+def writerWalk (cfg : Cfg) (mmap : Bool) (plugin : Bytes → BitVec 32 → Bool) (segExists : BitVec 64 → Bool) :
+    List Bytes → Nat → Option (Nat × List (Seg R)) → Outcome (Option (Nat × List (Seg R)))
+  | [], _, acc => ok acc
+  | f :: newer, i, acc =>
+    match loadFull ro cfg mmap plugin segExists f with
+    | ok ss => writerWalk cfg mmap plugin segExists newer (i + 1) (some (i, ss))
+    | error _ => writerWalk cfg mmap plugin segExists newer (i + 1) acc
+    | .panic s => .panic s
+    | alloc s n => alloc s n
+    | fault s => fault s
+
+/-- `loadSnapshots` as `OpenWriter` uses it: `none` = a new index (no snapshot file at all);
+`snapshotsFound && !snapshotLoaded` is the only error -/
+def openWriterSnap (cfg : Cfg) (mmap : Bool) (plugin : Bytes → BitVec 32 → Bool) (segExists : BitVec 64 → Bool)
+    (oldestFirst : List Bytes) : Outcome (Option (Nat × List (Seg R))) :=
+  match writerWalk ro cfg mmap plugin segExists oldestFirst 0 none with
+  | ok none => if oldestFirst.isEmpty then ok none else error .noSnapshot
+  | o => o
+
 end
 
 /-! ## specification-level definitions used by the C12 theorems -/
